@@ -301,6 +301,14 @@ def check_topdown(chk, case):
             if kept != best:
                 why.append(f"frame (video {fr.video}, idx {fr.frame_idx}): kept animals {kept}, highest-scoring {best} "
                            f"(max_instances={mi}, values {[(ai, round(v, 4)) for ai, _, _, v in pk]})")
+            # … and every kept record is a (centroid, score) record of the unrestricted detection: the score it
+            # carries is the value of ITS OWN centroid's peak (read by the harness from the rendered map)
+            own = {ai: v for ai, _, _, v in pk}
+            for r in bb.get(fr.code, []):
+                if r["animal"] in own and not close(r["cval"], own[r["animal"]]):
+                    why.append(f"frame (video {fr.video}, idx {fr.frame_idx}): the record of animal {r['animal']} carries "
+                               f"centroid score {r['cval']:.6f}, its own detection has {own[r['animal']]:.6f} "
+                               f"(max_instances={mi})")
     gains = sorted({a.gain for f in frames for a in f.animals})
     chk.case(("topdown", json.dumps(small, sort_keys=True)),
              {"case": "topdown", "B": B, "max_instances": mi, "refine": case["refine"], "animals_per_frame": n_an,
